@@ -116,7 +116,28 @@ mod verif_kani_sort {
         }
         assert!(count(&before, 1, &probe) == count(&v, 1, &probe));
     }
-    //@ id=C05.e1.sort.partition.3x1 props=C05,C15,C09 level=bounded tier=quick bound="3 rows x 1" budget=900 desc="partition, 3 rows: in-bounds pivot position, nothing greater before it, nothing smaller after it; permutation; pointer-safe"
+    //@ id=C05.e1.sort.partition.2x1 props=C05,C15,C09 level=bounded tier=quick bound="2 rows x 1" budget=600 desc="partition, 2 rows: in-bounds pivot position, nothing greater before it, nothing smaller after it; permutation; pointer-safe"
+    #[kani::proof]
+    #[kani::unwind(5)]
+    fn vk_c05_partition_2x1() {
+        let before: [u8; 2] = kani::any();
+        let probe: [u8; 2] = kani::any();
+        let mut v = before;
+        let p = partition(&mut v, 1, rowcmp);
+        assert!(p < 2);
+        let mut i = 0;
+        while i < 2 {
+            if i < p {
+                assert!(v[i] <= v[p]);
+            }
+            if i > p {
+                assert!(v[i] >= v[p]);
+            }
+            i += 1;
+        }
+        assert!(count(&before, 1, &probe) == count(&v, 1, &probe));
+    }
+    //@ id=C05.e1.sort.partition.3x1 props=C05,C15,C09 level=bounded tier=thorough bound="3 rows x 1" budget=1500 desc="partition, 3 rows: in-bounds pivot position, nothing greater before it, nothing smaller after it; permutation; pointer-safe"
     #[kani::proof]
     #[kani::unwind(6)]
     fn vk_c05_partition_3x1() {
